@@ -82,7 +82,7 @@ def units(tier, seed):
         us.append(('soak', i, 40 if tier == 'quick' else 300))
     us.append(('rangeexpr',))
     us.append(('chained',))
-    for i in range(4 if tier == 'quick' else 48):
+    for i in range(12 if tier == 'quick' else 48):
         us.append(('random', i))
     return us
 
